@@ -130,7 +130,32 @@ class C10Check(DCheck):
         return prog, ref, run, info
 
 
+def w_sweeper(ch: Choices, info: dict[str, Any]) -> list[Any]:
+    """Engine W: an extra actor runs the real recovery sweep while the workers handle messages."""
+    n = 1 + ch.pick("w.sweeps", 3)
+    gap = ch.choice("w.sweepgap", [0.0, 0.01, 0.03, 0.08])
+    info["mode"] = "w-sweeper"
+    info["stats"] = {"sweeps": 0, "sweep_requeued": 0}
+
+    def mk(world: Any) -> Any:
+        def body(wk: Any) -> None:
+            for _ in range(n):
+                world.sched.sleep(gap)
+                if world.sched.stopping:
+                    return
+                world.ctx[wk.wid] = ("recovery", "")
+                world.processor.run_recovery()
+                world.fault("recovery_sweep")
+                info["stats"]["sweeps"] += 1
+
+        return body
+
+    return [mk]
+
+
 CHECK = C10Check("C10", PROFILE, judge, setup=setup, need_ref=True, ref_setup=True,
                  nontrivial=lambda run, info: run["faults"].get("recovery_sweep", 0) + run["faults"].get("crash", 0) > 0)
+CHECK.w_share = 0.25
+CHECK.w_extra = w_sweeper
 run_one = CHECK.run_one
 replay_one = CHECK.replay_one
